@@ -58,6 +58,7 @@ type World struct {
 	ai         *absint
 	synthPos   map[ssa.Instruction]string
 	synth      *synthState
+	ren        *renames
 	storeSets  map[*ssa.Function]map[*types.Var]bool
 	NPkgs      int
 	NFuncs     int
@@ -154,6 +155,10 @@ func Load(dir, goos, goarch string) *World {
 		}
 	}
 	theWorld = w
+	w.inferRenames()
+	if w.ren != nil && len(w.ren.notes) > 0 && os.Getenv("TURNCHECK_QUIET") == "" {
+		fmt.Fprintf(os.Stderr, "note: %d renamed member(s) recognised: %s\n", len(w.ren.notes), strings.Join(w.ren.notes, "; "))
+	}
 	return w
 }
 
@@ -249,6 +254,24 @@ func (w *World) Func(pkg, recv, name string) *ssa.Function {
 }
 
 func (w *World) FuncOpt(pkg, recv, name string) *ssa.Function {
+	if f := w.funcOpt1(pkg, recv, name); f != nil {
+		return f
+	}
+	// renamed (unexported) member or receiver type?
+	if w.ren != nil {
+		if o, ok := w.ren.byRef["func|"+w.tpkg(pkg).Path()+"|"+recv+"|"+name].(*types.Func); ok {
+			return w.Prog.FuncValue(o)
+		}
+		if recv != "" {
+			if tn, ok := w.ren.byRef["type|"+w.tpkg(pkg).Path()+"|"+recv].(*types.TypeName); ok {
+				return w.funcOpt1(pkg, tn.Name(), name)
+			}
+		}
+	}
+	return nil
+}
+
+func (w *World) funcOpt1(pkg, recv, name string) *ssa.Function {
 	tp := w.tpkg(pkg)
 	if recv == "" {
 		obj, _ := tp.Scope().Lookup(name).(*types.Func)
@@ -282,6 +305,9 @@ func (w *World) FuncOpt(pkg, recv, name string) *ssa.Function {
 
 func (w *World) Named(pkg, name string) *types.Named {
 	tn, _ := w.tpkg(pkg).Scope().Lookup(name).(*types.TypeName)
+	if tn == nil && w.ren != nil {
+		tn, _ = w.ren.byRef["type|"+w.tpkg(pkg).Path()+"|"+name].(*types.TypeName)
+	}
 	if tn == nil {
 		failf("anchor unresolved: type %s.%s", pkg, name)
 	}
@@ -303,12 +329,20 @@ func (w *World) Field(pkg, typ, field string) *types.Var {
 			return st.Field(i)
 		}
 	}
+	for i := 0; i < st.NumFields(); i++ {
+		if nm(st.Field(i)) == field {
+			return st.Field(i) // renamed
+		}
+	}
 	failf("anchor unresolved: field %s.%s.%s", pkg, typ, field)
 	return nil
 }
 
 func (w *World) Const(pkg, name string) constant.Value {
 	c, _ := w.tpkg(pkg).Scope().Lookup(name).(*types.Const)
+	if c == nil && w.ren != nil {
+		c, _ = w.ren.byRef["const|"+w.tpkg(pkg).Path()+"|"+name].(*types.Const)
+	}
 	if c == nil {
 		failf("anchor unresolved: const %s.%s", pkg, name)
 	}
@@ -325,6 +359,11 @@ func (w *World) ConstInt(pkg, name string) int64 {
 
 func (w *World) Global(pkg, name string) *ssa.Global {
 	g, _ := w.spkg(pkg).Members[name].(*ssa.Global)
+	if g == nil && w.ren != nil {
+		if o, ok := w.ren.byRef["var|"+w.tpkg(pkg).Path()+"|"+name]; ok {
+			g, _ = w.spkg(pkg).Members[o.Name()].(*ssa.Global)
+		}
+	}
 	if g == nil {
 		failf("anchor unresolved: var %s.%s", pkg, name)
 	}
